@@ -34,7 +34,7 @@ def main():
             if err:
                 print(f"[canary {c['name']}] NOT APPLICABLE {err}"); bad += 1; continue
             env = dict(os.environ, VERIF_REPO=d, VERIF_EVIDENCE_DIR=os.path.join(d, "ev"), VERIF_REPLAY_DIR=os.path.join(d, "rp"),
-                       VERIF_KNOWN_FILE=os.environ.get("VERIF_KNOWN_FILE", os.path.join(V, "out", "c09_known_merged.jsonl")))
+                       VERIF_KNOWN_FILE=os.environ.get("VERIF_KNOWN_FILE", os.path.join(V, "KNOWN_FINDINGS.jsonl")))
             r = subprocess.run([os.path.join(V, ".venv/bin/python"), "-c", RUN], capture_output=True, text=True, env=env, cwd=V)
             lines = r.stdout.splitlines()
             ref = [l for l in lines if l.startswith("REFUTED")]
